@@ -3,9 +3,9 @@ import inspect
 import math
 from fractions import Fraction
 
-from ..core import Op
+from ..core import Op, jkey
 from ..rat import rat, frac, tol_eq
-from ..axis_common import guarded, f, fl, is_err, dy, rats
+from ..axis_common import guarded, f, fl, is_err, dy, rats, canon_exc
 
 PROPERTY = "C17"
 LEAN_MODULE = "Proofs.C17"
@@ -14,7 +14,8 @@ THEOREMS = [_T + n for n in [
     "C17_crop_exact", "C17_crop_rejects", "C17_extend_lattice", "C17_extend_keeps", "C17_extend_fill",
     "C17_width", "C17_placement", "C17_regular_axis_continues", "C17_step_known", "C17_arange_by_count",
     "C17_crop_bounds", "C17_extend_plan", "C17_extend_exact", "C17_width_keeps", "C17_crop_window",
-    "C17_step_options"]]
+    "C17_step_options", "C17_extend_closed", "C17_crop_closed", "C17_width_closed", "C17_step_closed",
+    "C17_history_on_lattice", "C17_extend_twice"]]
 LEVEL_TEXT = ("Lean theorems over the rational model of crop_dim (exactly the samples in the requested interval when no "
               "coordinate lies within eps of an open end), extend_dim (the whole result = filled samples on the lattice points "
               "below, the array itself, filled samples on the lattice points above; exactly the lattice points inside the "
@@ -25,7 +26,10 @@ LEVEL_TEXT = ("Lean theorems over the rational model of crop_dim (exactly the sa
               "extracted from the current source by symbolic execution and proved equal to the model for all inputs on every "
               "run (32 ties); the rest of the model is tied by exact differential runs on dyadic axes (every width 1..2n+3, "
               "three positions, all closedness flags, step from attribute or estimated, data with NaN / inf / fill-equal cells "
-              "over 1-3 dimensions); defaults (eps, tolerances, closedness) are re-extracted from the signatures on every run.")
+              "over 1-3 dimensions); defaults (eps, tolerances, closedness) are re-extracted from the signatures on every run. "
+              "Histories: the class of arrays the theorems speak about (non-empty piece of the lattice, step known) is proved "
+              "closed under every operation, and chains of 2-4 calls, each on the real output of the previous one, are "
+              "compared call by call with the composed model.")
 LEVEL_NOTE = ("Unmodelled: binary64 rounding of numpy arange with a fractional step and of `end + k * step` (probed on the "
               "real code by the free-mode monitors with steps 0.01, 1/3, 0.004, 1/44100: length, data on coordinates, "
               "coordinates within 2^-40 of the lattice); xarray sel / reindex are modelled as label slice / label lookup. "
@@ -37,7 +41,8 @@ TECHNIQUE = ("Lean 4 proof over model; symbolic-trace equality obligations for t
              "differential correspondence on dyadic axes; free-mode monitors for arange rounding")
 RULE = ("dyadic axes of 1-40 points x every width 1..2n+3 x three positions x step attribute present/absent; crop and "
         "extend requests on, between and beyond coordinates with all closedness flags; cells with NaN / +-inf / fill-equal "
-        "values over 1-d, 2-d and 3-d layouts; get_dim_step options; decimal-step monitors; "
+        "values over 1-d, 2-d and 3-d layouts; histories of 2-4 crop_dim / extend_dim / adjust_dim_width calls on "
+        "the previous output; get_dim_step options; decimal-step monitors; "
         "non-trivial = the implementation returned an array; distinct = distinct (operation, input)")
 TRUSTED = ["xarray sel / reindex, pandas slice_indexer, numpy arange / diff / mean / isclose (modelled, validated by correspondence)",
            "symbolic tracer stubs of an xarray.DataArray with one range dimension (harness/props/c17.py _kernel_stubs)"]
@@ -241,6 +246,54 @@ def _impl_dim_range(inp):
     return {"val": [rat(float(lo)), rat(float(hi)), rat(float(dims.get_dim_width(arr, "time")))]}
 
 
+# ---- histories: every call works on the array the previous call returned (attributes and all)
+def _apply_step(arr, st):
+    from soundevent.arrays import operations as ops
+    fn = st["fn"]
+    if fn == "crop_dim":
+        return ops.crop_dim(arr, "time", start=_q(st, "start"), stop=_q(st, "stop"), **_flag_kw(st))
+    if fn == "extend_dim":
+        return ops.extend_dim(arr, "time", start=_q(st, "start"), stop=_q(st, "stop"), **_fill_kw(st), **_flag_kw(st))
+    return _call_width(arr, {"fn": "adjust", "w": st["w"], "fill": st.get("fill"), "pos": st.get("pos"), "argty": st.get("argty")})
+
+
+@guarded
+def _impl_history(inp):
+    layout = inp.get("layout", "1d")
+    arr = _arr_of(inp)
+    outs = []
+    for st in inp["steps"]:
+        try:
+            before = _snapshot(arr)
+            r = _apply_step(arr, st)
+            o = {"raise": "crash:input-array-mutated"} if _snapshot(arr) != before else _out(r, layout)
+        except Exception as e:  # noqa: BLE001 - an exception of the real code is the observation of that call
+            o = canon_exc(e)
+        outs.append(o)
+        if is_err(o):
+            break
+        arr = r          # the real object: coordinates, data and whatever attributes the call left on it
+    return {"val": outs}
+
+
+def _cmp_history(inp, io, mo):
+    if is_err(io) or is_err(mo):
+        return None if io == mo else "implementation and model disagree"
+    a, b = io["val"], mo["val"]
+    for k, st in enumerate(inp["steps"]):
+        if k >= len(a) or k >= len(b):
+            return None if len(a) == len(b) else f"call {k + 1} ({st['fn']}): one side stopped earlier"
+        if a[k] != b[k]:
+            return (f"call {k + 1} of the history ({st['fn']} on the result of call {k}) disagrees with the model applied to "
+                    f"the array as it was before that call: impl={jkey(a[k])[:200]} model={jkey(b[k])[:200]}")
+        if is_err(b[k]):
+            return None
+        n = len(b[k]["val"]["coords"])
+        if n == 0 or (n < 2 and inp.get("step_attr") is None):
+            return None       # an empty axis / a one-point axis without step: outside the quantifier from here on
+    return None
+
+
 # ---- free mode (decimal steps): the real code only, judged by the property
 def _free_data(inp):
     return list(inp["data"]) if inp.get("data") is not None else list(range(1, inp["n"] + 1))
@@ -409,6 +462,8 @@ OPS = {
     "crop_dim": Op("crop_dim", _impl_crop, to_model=_strip(_HARNESS_KEYS | {"step_attr"})),
     "extend_dim": Op("extend_dim", _impl_extend, to_model=_strip(_HARNESS_KEYS)),
     "width": Op("width", _impl_width, to_model=_strip(_HARNESS_KEYS)),
+    "history": Op("history", _impl_history, to_model=_strip(_HARNESS_KEYS), compare=_cmp_history,
+                  nontrivial=lambda inp, out: not is_err(out) and len(out["val"]) >= 2 and not is_err(out["val"][1])),
     "dim_step": Op("dim_step", _impl_dim_step, to_model=_strip({"via"}), compare=_cmp_dim_step, mode="round-once"),
     "dim_range": Op("dim_range", _impl_dim_range),
     "width_free": Op("width_free", _impl_width_free, holds=_holds_width_free, **_NOOP),
@@ -478,7 +533,9 @@ def _kernel_stubs():
                     return sy["ce"]      # increasing axis: the last coordinate is the maximum
                 if k == 0 and self.pieces and self.pieces[0] == ("orig",):
                     return sy["cs"]
-                raise Untraceable("element of a generated coordinate array")
+                # an element of a generated piece: an opaque number.  It may be stored (attributes) but if it
+                # reaches the slice bounds / arange arguments the obligation refers to an unknown name and fails
+                return Sym.var("opaque_generated_coordinate")
             if isinstance(k, slice) and len(self.pieces) == 1 and self.pieces[0][0] == "arange":
                 _, a, b, c, rev, drop = self.pieces[0]
                 if (k.start, k.stop, k.step) == (None, None, -1):
@@ -919,6 +976,115 @@ def _extend_cases(ctx, n_axes):
                        "stop": rat(n - 1 + kr), "fill": fill, "lc": True, "rc": True, "eps": None}
 
 
+def _half(a0, step, h):
+    """the point h half-steps from a0"""
+    return a0 + Fraction(h, 2) * step
+
+
+def _first_inside(h, closed):
+    """smallest lattice index k with 2k >= h (closed) / 2k > h (open)"""
+    return -((-h) // 2) if closed else h // 2 + 1
+
+
+def _last_inside(h, closed):
+    return h // 2 if closed else -((-h) // 2) - 1
+
+
+def _history_step(rng, kind, kmin, kmax, a0, step, fill):
+    """one call that stays inside the property's quantifier for an axis a0 + k * step, kmin <= k <= kmax;
+    returns (call, new kmin, new kmax) or None"""
+    n = kmax - kmin + 1
+    lc, rc = rng.choice(_FLAGS)
+    if kind == "extend_dim":
+        hs = 2 * kmin - rng.choice([0, 0, 1, 2, 3, 4, 7])
+        he = 2 * kmax + rng.choice([0, 0, 1, 2, 3, 5, 6])
+        if not lc and hs == 2 * kmin:
+            hs -= 1
+        if not rc and he == 2 * kmax:
+            he += 1
+        st = {"fn": "extend_dim", "start": rat(_half(a0, step, hs)), "stop": rat(_half(a0, step, he)), "lc": lc, "rc": rc,
+              "fill": fill, "eps": None}
+        nmin, nmax = min(kmin, _first_inside(hs, lc)), max(kmax, _last_inside(he, rc))
+        r = rng.random()
+        if r < 0.12:
+            st["start"], nmin = None, kmin
+        elif r < 0.24:
+            st["stop"], nmax = None, kmax
+        return st, nmin, nmax
+    if kind == "crop_dim":
+        hs = rng.randint(2 * kmin, 2 * kmax)
+        he = rng.randint(hs, 2 * kmax)
+        if rng.random() < 0.3:
+            he = 2 * kmax                 # up to the very end of the axis as it is now
+        if rng.random() < 0.2:
+            hs = 2 * kmin
+        st = {"fn": "crop_dim", "start": rat(_half(a0, step, hs)), "stop": rat(_half(a0, step, he)), "lc": lc, "rc": rc, "eps": None}
+        nmin, nmax = max(kmin, _first_inside(hs, lc)), min(kmax, _last_inside(he, rc))
+        r = rng.random()
+        if r < 0.12:
+            st["start"], nmin = None, kmin
+        elif r < 0.24:
+            st["stop"], nmax = None, kmax
+        return st, nmin, nmax
+    w = rng.randint(max(1, n - 3), n + 4)
+    pos = rng.choice(["start", "center", "end"])
+    off = _placement(n, w, pos)
+    st = {"fn": "width", "w": w, "fill": fill, "pos": pos}
+    if w >= n:
+        return st, kmin - off, kmin - off + w - 1
+    return st, kmin + off, kmin + off + w - 1
+
+
+_HISTORY_SHAPES = [("extend_dim", "extend_dim"), ("extend_dim", "crop_dim"), ("extend_dim", "crop_dim", "extend_dim"),
+                   ("crop_dim", "extend_dim"), ("extend_dim", "width"), ("width", "extend_dim"), ("width", "crop_dim"),
+                   ("crop_dim", "crop_dim"), ("extend_dim", "extend_dim", "crop_dim"), ("extend_dim", "width", "crop_dim", "extend_dim"),
+                   ("crop_dim", "width", "extend_dim"), ("extend_dim", "extend_dim", "extend_dim")]
+
+
+def _history_cases(ctx, count):
+    """chains of 2-4 calls, each on the output of the previous one; the generator follows the axis (as lattice
+    indices) so that every request stays inside the quantifier: crops inside, extensions containing the axis"""
+    rng = ctx.rng
+    kinds = ["extend_dim", "crop_dim", "width"]
+    for i in range(count):
+        n = rng.choice([1, 2, 3, 5, 8, 13])
+        a0, step, coords = _axis(rng, n)
+        if i < 6 * len(_HISTORY_SHAPES):
+            shape = _HISTORY_SHAPES[i % len(_HISTORY_SHAPES)]
+        else:
+            shape = [rng.choice(kinds) for _ in range(rng.randint(2, 4))]
+        fill = rng.choice(FILLS)
+        b = _base(rng, coords, step, attr=True if rng.random() < 0.7 else None, fill=fill)
+        b.pop("argty", None)
+        kmin, kmax, steps = 0, n - 1, []
+        for kind in shape:
+            got = _history_step(rng, kind, kmin, kmax, a0, step, rng.choice([fill, fill, rng.choice(FILLS)]))
+            st, kmin, kmax = got
+            if rng.random() < 0.1:
+                st["argty"] = rng.choice(["np", "int"])
+            steps.append(st)
+            if kmax < kmin or (kmax == kmin and b["step_attr"] is None):
+                break
+        if b.get("int_data") and any(not isinstance(st.get("fill", 0), int) for st in steps):
+            b.pop("int_data")
+        if len(steps) >= 2:
+            b["steps"] = steps
+            ctx.tally(f"history:{len(steps)}-calls")
+            ctx.tally("history:first-two=" + ">".join(st["fn"].split("_")[0] for st in steps[:2]))
+            yield b
+    # integer axis 0..4 (the docstring arrays), whole-number requests
+    for shape in _HISTORY_SHAPES:
+        kmin, kmax, steps = 0, 4, []
+        for kind in shape:
+            st, kmin, kmax = _history_step(rng, kind, kmin, kmax, Fraction(0), Fraction(1), 0)
+            steps.append(st)
+            if kmax < kmin:
+                break
+        if len(steps) >= 2:
+            yield {"coords": rats(range(5)), "data": [1, 2, "nan", 4, 5], "step_attr": None if rng.random() < 0.5 else "1",
+                   "layout": "1d", "steps": steps}
+
+
 def _step_cases(ctx):
     """get_dim_step / estimate_dim_step with every option: attribute, estimate, tolerances, switches"""
     rng = ctx.rng
@@ -1061,6 +1227,7 @@ def run(ctx):
     ctx.stage("width-exact", _stage_width, ctx)
     ctx.stage("crop-exact", lambda: ctx.run_cases(OPS["crop_dim"], _crop_cases(ctx, ctx.budget(25, 200))))
     ctx.stage("extend-exact", lambda: ctx.run_cases(OPS["extend_dim"], _extend_cases(ctx, ctx.budget(25, 200))))
+    ctx.stage("history-exact", lambda: ctx.run_cases(OPS["history"], _history_cases(ctx, ctx.budget(700, 6000))))
     ctx.stage("step-exact", lambda: ctx.run_cases(OPS["dim_step"], _step_cases(ctx)))
     ctx.stage("range-exact", lambda: ctx.run_cases(OPS["dim_range"], _range_cases(ctx)))
     ctx.stage("width-free-monitor", lambda: ctx.run_cases(OPS["width_free"], _width_free_cases(ctx)))
@@ -1072,6 +1239,7 @@ def search(ctx, failures):
     ctx.run_cases(OPS["width"], _width_cases(ctx, QUICK_LENGTHS))
     ctx.run_cases(OPS["crop_dim"], _crop_cases(ctx, 40))
     ctx.run_cases(OPS["extend_dim"], _extend_cases(ctx, 40))
+    ctx.run_cases(OPS["history"], _history_cases(ctx, 700))
     ctx.run_cases(OPS["dim_step"], _step_cases(ctx))
     ctx.run_cases(OPS["width_free"], _width_free_cases(ctx))
     ctx.run_cases(OPS["extend_free"], _extend_free_cases(ctx))
